@@ -307,7 +307,7 @@ impl SchemaCatalog {
         let content = serde_json::to_string_pretty(self)
             .map_err(|e| SchemaError::IoError(format!("Failed to serialize schemas: {e}")))?;
 
-        fs::write(path, content)
+        crate::storage::write_file_atomically(path, content.as_bytes())
             .map_err(|e| SchemaError::IoError(format!("Failed to write schema catalog: {e}")))?;
 
         Ok(())
